@@ -118,8 +118,14 @@ func (t *treeSimple) mkdir(r io.Reader, cfg *config) error {
 		return err
 	}
 
+	t.grower.enableValidation()
+	// when detect invalid node name, return error. process end.
 	if err := t.grower.grow(roots); err != nil {
 		return err
+	}
+	if cfg.dryrun {
+		// when detected no invalid node name, output tree.
+		return t.spreader.spread(color.Output, roots)
 	}
 	return t.mkdirer.mkdir(roots)
 }
